@@ -180,3 +180,36 @@ Theorem C07_oset_phase_nonvacuous :
             option_map or_members (latest_set p) = Some [(0, 4294967295)].
 Proof. exact ex_blocks_run. Qed.
 Print Assumptions C07_oset_phase_nonvacuous.
+
+(* gov EndBlocker: an error RETURNED by an end blocker halts the chain.  These are all the calls whose error the gov
+   end blocker (and failUnsupportedProposal) hands back, read from x/gov/abci.go on every run.  Of these only the
+   deposit refund/burn (bank transfers out of the gov module account) can fail on a consistent store — the subject of
+   C07_gov_endblock_total and of known finding C15-2; Tally's arithmetic is C07_tally_never_divides_by_zero; the
+   remaining ones are collections reads/writes of records the same walk has just read (they fail only on a corrupt
+   store; an encoding error of the proposal itself is routed to failUnsupportedProposal, not returned).  Message
+   execution errors and hook errors are NOT in this list: the code keeps them on a cache branch / logs them. *)
+Theorem C07_gov_halting_calls :
+  gen_gov_halting_calls =
+  [("EndBlocker:keeper.InactiveProposalsQueue.Walk", "keeper.Proposals.Get");
+   ("EndBlocker:keeper.InactiveProposalsQueue.Walk", "failUnsupportedProposal");
+   ("EndBlocker:keeper.InactiveProposalsQueue.Walk", "keeper.DeleteProposal");
+   ("EndBlocker:keeper.InactiveProposalsQueue.Walk", "keeper.DeleteProposal");
+   ("EndBlocker:keeper.InactiveProposalsQueue.Walk", "keeper.Params.Get");
+   ("EndBlocker:keeper.InactiveProposalsQueue.Walk", "keeper.RefundAndDeleteDeposits");
+   ("EndBlocker:keeper.InactiveProposalsQueue.Walk", "keeper.DeleteAndBurnDeposits");
+   ("EndBlocker", "keeper.InactiveProposalsQueue.Walk");
+   ("EndBlocker:keeper.ActiveProposalsQueue.Walk", "keeper.Proposals.Get");
+   ("EndBlocker:keeper.ActiveProposalsQueue.Walk", "failUnsupportedProposal");
+   ("EndBlocker:keeper.ActiveProposalsQueue.Walk", "keeper.ActiveProposalsQueue.Remove");
+   ("EndBlocker:keeper.ActiveProposalsQueue.Walk", "keeper.Tally");
+   ("EndBlocker:keeper.ActiveProposalsQueue.Walk", "keeper.DeleteAndBurnDeposits");
+   ("EndBlocker:keeper.ActiveProposalsQueue.Walk", "keeper.RefundAndDeleteDeposits");
+   ("EndBlocker:keeper.ActiveProposalsQueue.Walk", "keeper.ActiveProposalsQueue.Remove");
+   ("EndBlocker:keeper.ActiveProposalsQueue.Walk", "keeper.Params.Get");
+   ("EndBlocker:keeper.ActiveProposalsQueue.Walk", "keeper.ActiveProposalsQueue.Set");
+   ("EndBlocker:keeper.ActiveProposalsQueue.Walk", "keeper.SetProposal");
+   ("EndBlocker", "keeper.ActiveProposalsQueue.Walk");
+   ("failUnsupportedProposal", "keeper.SetProposal");
+   ("failUnsupportedProposal", "keeper.RefundAndDeleteDeposits")]%string.
+Proof. reflexivity. Qed.
+Print Assumptions C07_gov_halting_calls.
